@@ -2,7 +2,7 @@
     copies report the same.  Only statements closed by [exact]; proofs in Proofs/MomentsP.v,
     model in Model/Moments.v, design in DESIGN.md 5/C09. *)
 From Coq Require Import List ZArith QArith Qcanon Bool Lia.
-From Inovesa Require Import Base.FieldKit Base.Sums Model.Moments Proofs.MomentsP Proofs.MomentsWitP.
+From Inovesa Require Import Base.FieldKit Base.Sums Model.Moments Proofs.MomentsP Proofs.MomentsWitP Proofs.SimpsonP.
 Import ListNotations.
 Local Open Scope Z_scope.
 
@@ -236,3 +236,34 @@ Print Assumptions C09_energy_mean_axis0_spacing_refuted.
 
 Example C09_copy_example : fresh QcF ex_geom ex_state.
 Proof. apply construct_fresh. Qed.
+
+(** ** the weight vector of simpsonWeights.  Odd n >= 3: the composite Simpson rule, weights sum
+    to the length of the axis and integrate cubics exactly.  Even n >= 2: the code's rule is not
+    Simpson's (the last interior weight is 2h/3, the last interval gets h/3 on each end): the
+    weights sum to the length minus a third of a cell. *)
+Theorem C09_simpson_weights_sum_odd :
+  forall (K : Fld) (g : geom K) (p : nat),
+    gn g = 2 * Z.of_nat p + 3 -> sumn K (gn g) (ws K g) = (gd0 g * fz (gn g - 1))%F.
+Proof. exact simpson_weights_sum_odd. Qed.
+Print Assumptions C09_simpson_weights_sum_odd.
+
+Theorem C09_simpson_weights_sum_even :
+  forall (K : Fld) (g : geom K) (p : nat),
+    gn g = 2 * Z.of_nat p + 2 ->
+    sumn K (gn g) (ws K g) = (gd0 g * fz (gn g - 1) - gd0 g / three)%F.
+Proof. exact simpson_weights_sum_even. Qed.
+Print Assumptions C09_simpson_weights_sum_even.
+
+Theorem C09_simpson_exact_deg3 :
+  forall (K : Fld) (g : geom K) (p : nat) (c0 c1 c2 c3 : K),
+    gn g = 2 * Z.of_nat p + 3 ->
+    sumn K (gn g) (fun i => ws K g i * cubic K c0 c1 c2 c3 (gqp K g 0 i))%F
+    = (cubic_int K c0 c1 c2 c3 (gqp K g 0 (gn g - 1)) - cubic_int K c0 c1 c2 c3 (gqp K g 0 0))%F.
+Proof. exact simpson_exact_deg3. Qed.
+Print Assumptions C09_simpson_exact_deg3.
+
+Example C09_simpson_example :
+  gn wg5 = 2 * Z.of_nat 1 + 3 /\
+  map (fun i => this (ws QcF wg5 i)) [0; 1; 2; 3; 4] = [1 # 1; 4 # 1; 2 # 1; 4 # 1; 1 # 1]%Q /\
+  gn ex_geom = 2 * Z.of_nat 0 + 3.
+Proof. vm_compute. repeat split. Qed.
